@@ -99,12 +99,12 @@ FIX_CA_COMPARE = _sub(
     'got {idx}")\n')
 
 FIX_CLOBBER = _sub(
-    "                        data=data[:stop])\n"
+    "data=data[:stop])\n"
     "                type, data = await self.mbx_recv()\n"
     "                if type is not MBXType.COE:\n"
     '                    raise EtherCatError(f"expected CoE, got {type}")\n'
     '                coecmd, sdocmd, idx, subidx = unpack("<HBHB", data[:6])\n',
-    "                        data=data[:stop])\n"
+    "data=data[:stop])\n"
     "                type, rdata = await self.mbx_recv()\n"
     "                if type is not MBXType.COE:\n"
     '                    raise EtherCatError(f"expected CoE, got {type}")\n'
@@ -165,6 +165,8 @@ FIX_UP_SHORT = _sub(
     "                    data = data[:10 - ((sdocmd >> 1) & 7)]\n")
 
 FIX_MAIL = _chain(
+    _resub(r"(?m)^(\s+type, r?data) = await self\.mbx_recv\(\)$",
+           r"\1 = await self.coe_recv()", 6),
     _sub("    async def coe_request(self, coecmd, odcmd, *args, **kwargs):\n",
          "    async def coe_recv(self):\n"
          '        """receive the next CoE mail that is not an emergency"""\n'
@@ -176,13 +178,7 @@ FIX_MAIL = _chain(
          '            logging.warning(f"skipped unrelated mail {type}, "\n'
          '                            f"for terminal {self.name}")\n'
          "\n"
-         "    async def coe_request(self, coecmd, odcmd, *args, **kwargs):\n"),
-    _resub(r"(?m)^(\s+type, r?data) = await self\.mbx_recv\(\)$",
-           r"\1 = await self.coe_recv()", 7))
-
-
-def _mail_matcher(c):
-    return True
+         "    async def coe_request(self, coecmd, odcmd, *args, **kwargs):\n"))
 
 
 # id -> (repair, matcher over the case, what)
@@ -209,7 +205,8 @@ KF = {
         "with None: every complete-access download raises EtherCatError "
         "although the terminal stored the value"),
     "C16-down-data-clobbered": (
-        FIX_CLOBBER, lambda c: c["dir"] == "w" and (c["L"] > 4 or c["ca"]),
+        FIX_CLOBBER,
+        lambda c: c["dir"] == "w" and (c["L"] > 4 or c["ca"] or c["L"] == 0),
         "sdo_write normal download: the response overwrites the local "
         "`data`, so the segment loop runs over the 10 response bytes: "
         "values of < 10 bytes are followed by a bogus segment (abort, "
@@ -556,7 +553,8 @@ def work(item, res):
             res.nontrivial.add(core.digest([case, ch.choices]))
         bad = judge(case, obs)
         if not bad:
-            res.outcomes.add(("ok", len(obs["mails_in"]) > 1))
+            res.outcomes.add(("ok", case["dir"], min(len(obs["mails_in"]), 4),
+                              tuple(i[1] for i in obs["injected"])))
             return
         choices = list(ch.choices)
         s = att.attribute(case, choices, obs, bad)
@@ -595,9 +593,9 @@ def run(ctx):
         size = c["out"] if c["dir"] == "w" else c["in"]
         b = boundary(size, c["L"])
         if ctx.quick:
-            bound = 1 if b and c["style"] == 0 else 0
+            bound = 1
         else:
-            bound = 2 if b else 1
+            bound = 3 if b else 2
         items.append((c, bound, k))
     # determinism of the execution itself
     probe = dict(dir="r", ca=False, out=24, L=30, style=0, seed=ctx.seed,
@@ -611,6 +609,7 @@ def run(ctx):
     res.cov["traces_validated_against_impl"] = res.cov.get("evaluations", 0)
     res.cov["cases"] = len(items)
     res.cov["bound_completed"] = 1 if ctx.quick else 2
+    res.cov["bound_boundary_lengths"] = 1 if ctx.quick else 3
     res.cov["model_selftest"] = stats
     res.cov["repairs_applicable"] = [kf for kf in ORDER
                                      if KF[kf][0](source()) is not None]
@@ -630,8 +629,8 @@ def run(ctx):
         "a known finding is attributed only if its source repair, applied "
         "in memory, changes the observation and the complete set of "
         "attributed repairs makes the same execution satisfy the oracle",
-        "quick: the mailbox not carrying the data takes 2 of the 4 sizes; "
-        "latency/unrelated-mail deviations only for boundary lengths"]
+        "quick: the mailbox not carrying the data takes 2 of the 4 sizes "
+        "(which ones rotates with the seed)"]
     return res
 
 
